@@ -3,6 +3,7 @@
 package ice
 
 import (
+	"bytes"
 	"encoding/hex"
 	"errors"
 	"fmt"
@@ -105,12 +106,27 @@ func vAttrGet(kind string, m *stun.Message) string {
 		if err := d.GetFrom(m); err != nil {
 			return vAttrErr(err)
 		}
+		stale := DtlsInStunAttribute(bytes.Repeat([]byte{0xaa}, 300))
+		if err := stale.GetFrom(m); err != nil {
+			return "recv-dependent:ok|" + vAttrErr(err)
+		}
+		if !bytes.Equal(stale, d) {
+			return "recv-dependent:h" + hex.EncodeToString(d) + "|h" + hex.EncodeToString(stale)
+		}
 
 		return "h" + hex.EncodeToString(d)
 	case "ack":
 		var a DtlsInStunAckAttribute
 		if err := a.GetFrom(m); err != nil {
 			return vAttrErr(err)
+		}
+		// the decoded value must not depend on what the receiver held before (a reused receiver variable)
+		stale := DtlsInStunAckAttribute{0xdeadbeef, 0x5060708, 0x90a0b0c, 1, 2, 3, 4, 5, 6, 7, 8, 9}
+		if err := stale.GetFrom(m); err != nil {
+			return "recv-dependent:ok|" + vAttrErr(err)
+		}
+		if vAttrNums(stale) != vAttrNums(a) {
+			return "recv-dependent:" + vAttrNums(a) + "|" + vAttrNums(stale)
 		}
 
 		return vAttrNums(a)
